@@ -246,6 +246,7 @@ type Cluster struct {
 	lastTamperedOp    string
 	syn               *synthState
 	synTxn            int
+	synPTx            float64 // share of synthetic events that carry payload (0: default)
 	synFairFrom       int // synthetic histories: number of events created before the fair continuation (0: none)
 	synFairCycles     int
 	refDag            *refDag
